@@ -5,14 +5,22 @@
      [C06_invariant]      every reachable state satisfies Wake.frame_ok (runner frames) and Wake.queue_ok (no runner);
      [C06_terminal_pool]  with >= 1 pool runner, a reachable state in which no actor is enabled and all events are fired has
                           qs = Idle, jobs = [], nothing in hand, and every scheduled operation has started and finished, in order.
-   MISSING ([C06_zero_pool_full], Main.v, only stated): the variant with ZERO pool runners (a single awaiting caller completes
-   its future itself).  It needs a second cover predicate for the task half of the DoubleWaker; note the side condition the
-   statement needs (found while exploring): no sync and no suspend in the awaiting caller - a task that awaits a later future while
-   the queue is parked in WaitingForWake is not re-polled by the queue wake-up and nobody runs the queue without a pool thread. *)
+     [C06_zero_pool_full] with ZERO pool runners: one caller that only schedules plain / future jobs (bodies without signals) and
+                          awaits or detaches its futures - no sync, no suspend - plus any number of callers that only fire events:
+                          in a reachable state where no actor is enabled and all events are fired, the awaiting caller has
+                          finished its script (stack = [FTop []]).  Needs, besides all_cond, the table facts ZeroInv.zero_cond
+                          (instantiated for the generated tables in Inst.gen_zero_cond).  Proof: Zero*.v - the task half of the
+                          DoubleWaker is tracked by a second cover predicate (Zero.tcover, invariant ZeroTz.Inv_tz).
+   The side condition is needed: without it the statement ([Main.C06_zero_pool_any_script]) is REFUTED by a concrete run of the
+   generated tables, see Examples.C06_zero_pool_needs_side_condition_refuted (a task that awaits a later future while the queue is
+   parked in Pending / WaitingForWake is not re-polled by the queue wake-up and nobody runs the queue without a pool thread). *)
 From L2 Require Import Model Wake WakeInv Term Main.
 Theorem C06_wake_invariant_L2 : C06_invariant.
 Proof. exact C06_invariant_main. Qed.
 Theorem C06_terminal_partial_L2 : C06_terminal_pool.
 Proof. exact C06_terminal_main. Qed.
+Theorem C06_zero_pool_L2 : C06_zero_pool_full.
+Proof. exact C06_zero_pool_main. Qed.
 Print Assumptions C06_wake_invariant_L2.
 Print Assumptions C06_terminal_partial_L2.
+Print Assumptions C06_zero_pool_L2.
